@@ -61,6 +61,12 @@ var rePatterns = []struct{ pat, hit, miss string }{
 // of the rule's language, a near-miss (one edit away from a member) or random.
 func genC05Case(t *rapid.T) (c *ScalarCase, rule, class string) {
 	rule = rapid.SampledFrom(c05RuleNames).Draw(t, "rule")
+	c, class = genC05CaseFor(t, rule)
+	return c, rule, class
+}
+
+// genC05CaseFor draws a (value, arguments) pair for one given rule.
+func genC05CaseFor(t *rapid.T, rule string) (c *ScalarCase, class string) {
 	class = pick3(t)
 	c = &ScalarCase{RePats: map[string]string{}}
 	item := rule
@@ -295,7 +301,7 @@ func genC05Case(t *rapid.T) (c *ScalarCase, rule, class string) {
 	// custom message (half of the cases), neighbours in the rule list so the splitter is exercised
 	if rapid.Bool().Draw(t, "withMsg") {
 		old := item
-		item += rapid.SampledFrom([]string{"|m1", "|格式不对", "|bad value 值"}).Draw(t, "msg")
+		item += rapid.SampledFrom([]string{"|m1", "|格式不对", "|bad value 值", "|'quoted, 值'", "|'a,b'"}).Draw(t, "msg") // (a message with a comma is written in quotes)
 		if p, ok := c.RePats[old]; ok {
 			delete(c.RePats, old)
 			c.RePats[item] = p
@@ -310,7 +316,7 @@ func genC05Case(t *rapid.T) (c *ScalarCase, rule, class string) {
 	}
 	c.Carrier = rapid.SampledFrom([]string{"var", "tag", "tag", "rm"}).Draw(t, "carrier")
 	c.T = maybeNamedDeep(t, c.T)
-	return c, rule, class
+	return c, class
 }
 
 func c05Excluded(c *ScalarCase) string {
